@@ -3,8 +3,8 @@ from .. import sockio
 
 ID = "C18"
 PROPS = ["theories/Props/C18.vo"]
-PINNED = ["C18_holds_outside", "C18_refuted_connect_eintr_spins", "C18_mode_restored",
-          "C18_no_wait_when_nonblocking"]
+PINNED = ["C18_mode_restored", "C18_holds_outside", "C18_refuted_nonblocking_fd_waits",
+          "C18_refuted_connect_eintr_spins", "C18_oracle_meaning"]
 CASES_MODULE = "Cases.C18"
 AREA = "sockio"
 ISOLATE = False
@@ -39,13 +39,13 @@ def gen(rng, tier):
 
 
 LEVEL_TEXT = ("Unbounded Coq theorems about the Gallina transcription of all eight loop sites (six byte-moving loops, "
-              "accept, connect) with the descriptor's O_NONBLOCK flag as state: on every exit path the flag after the "
-              "call equals the flag before; on a descriptor that was non-blocking on entry no readiness wait is ever "
-              "requested, no kernel call follows one that would have blocked, and the call returns -1 with that "
-              "call's errno (EAGAIN, or EINPROGRESS/EALREADY for connect) unless bytes were already moved. Tied to "
-              "the Rust code by fcntl(F_GETFL) before/after and the wait recorder. One recorded finding is excluded "
-              "from the universal statement and witnessed separately (C18_refuted_connect_eintr_spins / "
-              "C18_holds_outside): a hooked connect whose inner call fails with EINTR never returns.")
+              "accept, connect) with the descriptor's O_NONBLOCK flag as state. Full theorem (C18_mode_restored): on "
+              "every exit path, for every script, timeout, wait-failure pattern and both modes, the flag after the call "
+              "equals the flag before. The non-blocking clause (no readiness wait, no kernel call after one that would "
+              "have blocked, -1 with that call's errno) is refuted on the current code, which waits up to the socket "
+              "time limit (C18_refuted_nonblocking_fd_waits, known finding), and proved outside that defect and "
+              "outside connect_eintr_spins (C18_holds_outside). Tied to the Rust code by fcntl(F_GETFL) before/after "
+              "and the wait recorder.")
 LEVEL_NOTE = ("Trusted: Coq kernel + vm_compute; hand transcription validated on generated scripts; the wait recorder "
               "hook; only the plain-thread path is exercised (inside a coroutine the same loop code runs, the wait "
               "suspends the coroutine instead). No axioms.")
